@@ -138,13 +138,20 @@ def real_read(chk: core.Check, tabs):
                 chk.failing_input("raw read with ID decoding: event header", {"field": f}, "changed", "unchanged", "everything else being unchanged")
         # every selection of sub-detectors (any subset, any order, with and without the non-digi collections trg / ef):
         # the ids of each selected detector are the table images, whatever else is selected
-        sels = [["mdc"], ["tof"], ["emc"], ["muc"], ["ef", "mdc"], ["mdc", "ef"], ["trg", "muc"], ["ef", "trg", "tof", "emc"], ["muc", "emc", "tof", "mdc", "trg", "ef"], ["emc", "mdc"], ["ef"], ["trg"]]
+        sels = [["mdc"], ["tof"], ["emc"], ["muc"], ["ef", "mdc"], ["mdc", "ef"], ["trg", "muc"], ["ef", "trg", "tof", "emc"], ["muc", "emc", "tof", "mdc", "trg", "ef"], ["emc", "mdc"], ["ef"], ["trg"],
+                # a list may name a detector more than once (the decoder collects the names in a set)
+                ["mdc", "emc", "mdc"], ["tof", "tof"], ["muc", "ef", "muc", "trg"]]
         for sel in sels:
-            with rc.NativeBackedReader():
-                with pybes3.open_raw(path) as r:
-                    raw_s = r.arrays(decode_reid=False, sub_detectors=sel, n_block_per_batch=11)
-                with pybes3.open_raw(path) as r:
-                    dec_s = r.arrays(sub_detectors=sel, n_block_per_batch=4)
+            try:
+                with rc.NativeBackedReader():
+                    with pybes3.open_raw(path) as r:
+                        raw_s = r.arrays(decode_reid=False, sub_detectors=sel, n_block_per_batch=11)
+                    with pybes3.open_raw(path) as r:
+                        dec_s = r.arrays(sub_detectors=sel, n_block_per_batch=4)
+            except Exception as ex:
+                chk.failing_input(f"raw read with sub_detectors={sel} (decoding off, then on)", {"sub_detectors": sel}, f"{type(ex).__name__}: {str(ex)[:200]}", "arrays",
+                                  "every electronics id is mapped without ever indexing outside the table; the ids are the table images for every selection of sub-detectors")
+                return
             chk.count(1, key="selection-" + ",".join(sel))
             chk.hist("selection", ",".join(sel))
             for d in sel:
